@@ -56,3 +56,6 @@ func (v *VerifPRNG) Shuffle(n int, swap func(i, j int)) { v.p.rand.Shuffle(n, sw
 
 // VerifGreaseSeed returns the connection's GREASE seed after ApplyPreset.
 func (uconn *UConn) VerifGreaseSeed() []uint16 { return append([]uint16(nil), uconn.greaseSeed[:]...) }
+
+// VerifHostnameInSNI exposes hostnameInSNI.
+func VerifHostnameInSNI(name string) string { return hostnameInSNI(name) }
